@@ -257,6 +257,7 @@ def real_behaviour(b, rng, n_objects=12, n_steps=60):
     d = Driver(b)
     fams = list(gen.FAMILIES)
     made = 0
+    kinds = {}
 
     def new_chain():
         nonlocal made
@@ -273,12 +274,16 @@ def real_behaviour(b, rng, n_objects=12, n_steps=60):
                 continue
         else:
             return
-        ot = d.create(tr)
-        oj = d.create(j, parents=[ot])
-        om = d.create(TrajectoryMetrics(tr.diff_trajectory))
+        # the trajectories are objects of the lifecycle too: analysis objects hold them, and nothing else may
+        oT = d.create(traj)
+        oD = d.create(tr.diff_trajectory)
+        ot = d.create(tr, parents=[oT, oD])
+        oj = d.create(j, parents=[ot, oD])
+        om = d.create(TrajectoryMetrics(tr.diff_trajectory), parents=[oD])
+        kinds[oT], kinds[oD] = 'R', 'R'
+        del traj, tr, j
         return ot, oj, om
 
-    kinds = {}
     for _ in range(max(1, n_objects // 3)):
         r = new_chain()
         if r:
@@ -386,6 +391,14 @@ def real_behaviour(b, rng, n_objects=12, n_steps=60):
                         d.call(o, 'tracer_diffusivity_center_of_mass', dimensions=int(rng.integers(1, 4)))
                 elif k == 'C':
                     d.call(o, str(rng.choice(['site_pair_count_matrix', 'multiple_collective', 'site_pair_count_matrix_labels'])))
+                elif k == 'R':
+                    # the convenience entry points on the trajectory itself (not memoised: nothing to compare, but whatever they
+                    # create must not outlive their trajectory's users)
+                    t_ = d.objs[o]
+                    m_ = t_.metrics()
+                    m_.speed(), m_.particle_density()
+                    t_.mean_squared_displacement()
+                    del t_, m_
             except (ValueError, IndexError):
                 pass
         elif r < 0.92:
